@@ -730,7 +730,7 @@ def stale_class_entries(ctx, i):
     ctx.case({"stale-class-entries": True}, True)
 
 
-def cached_loop_history(ctx, i):
+def cached_loop_history(ctx, i, forced=None):
     """Loop templates with cache=True on body nodes and gates, run several times on ONE cache by the sync and the async
     runner: every run - first (cold), second (all hits) and third - ends with the values of the uncached loop. In a
     cycle a cached node can be ready in the same step as a producer of one of its inputs; what a hit is booked against
@@ -744,6 +744,10 @@ def cached_loop_history(ctx, i):
     cands = [t for t in loops.systematic_templates(N) if not any(ns["k"] == "sub" for ns in t["spec"]["nodes"]) and not t["ref"].get("mechanism")]
     all_cached = rng.random() < 0.4
     t = _observer_loop(N + 1, rng.randint(1, N), rng.random() < 0.5) if all_cached else rng.choice(cands)
+    if forced is not None:
+        # directed: every small observer loop (limit x threshold x listing order), everything cached
+        all_cached = True
+        t = _observer_loop(*forced)
     spec = copy.deepcopy(t["spec"])
     for ns in spec["nodes"]:
         if (all_cached or rng.random() < 0.7) and not ns.get("gen"):
@@ -1052,6 +1056,11 @@ def run(ctx):
     if ctx.replay:
         ctx.inconc("C09 replays are re-generated from the seed; re-run the tier with the recorded seed")
         return
+    if ctx.shard[0] == 0:
+        for lim in (2, 3, 4):
+            for thr in range(1, lim + 1):
+                for rf in (False, True):
+                    cached_loop_history(ctx, -1, forced=(lim, thr, rf))
     for i in range(n):
         if i % 10 == 9:
             cached_interrupt(ctx, i)
